@@ -98,23 +98,30 @@ def addRecordJson (st : EncSt) (label ident : String) (rj : JVal) : EncSt :=
     | some other => .arr [other, rj]
   { st with cont := jsonObjSet st.cont label (.obj (jsonObjSet cur ident newEntry)) }
 
+/-- the "prefix" block of a container: registered namespaces, then "default" -/
+def jsonPrefixes (m : NsMgr) : List (String × JVal) :=
+  (m.reg.values.foldl (fun acc n => jsonObjSet acc n.pfx (.str n.uri)) []) |>
+    (fun p => match m.dflt with | some d => jsonObjSet p "default" (.str d.uri) | none => p)
+
+/-- the state `encode_json_container` starts its loop with -/
+def jsonEncInit (m : NsMgr) : EncSt :=
+  { cont := if (jsonPrefixes m).isEmpty then [] else [("prefix", .obj (jsonPrefixes m))], anon := [], count := 0 }
+
+/-- the loop body of `encode_json_container` -/
+def encStepJ (acc : Option EncSt) (r : Record) : Option EncSt :=
+  match acc with
+  | none => none
+  | some st =>
+    let (st1, ident) : EncSt × String := match r.id with
+      | some q => (st, q.print)
+      | none => anonIdFor st r
+    match encodeJsonRecord r with
+    | some rj => some (addRecordJson st1 r.kind.provN ident rj)
+    | none => none
+
 /-- `encode_json_container(bundle)` -/
 def encodeJsonContainer (m : NsMgr) (records : List Record) : Option (List (String × JVal)) :=
-  let prefixes : List (String × JVal) :=
-    (m.reg.values.foldl (fun acc n => jsonObjSet acc n.pfx (.str n.uri)) []) |>
-      (fun p => match m.dflt with | some d => jsonObjSet p "default" (.str d.uri) | none => p)
-  let st0 : EncSt := { cont := if prefixes.isEmpty then [] else [("prefix", .obj prefixes)], anon := [], count := 0 }
-  let step (acc : Option EncSt) (r : Record) : Option EncSt :=
-    match acc with
-    | none => none
-    | some st =>
-      let (st1, ident) : EncSt × String := match r.id with
-        | some q => (st, q.print)
-        | none => anonIdFor st r
-      match encodeJsonRecord r with
-      | some rj => some (addRecordJson st1 r.kind.provN ident rj)
-      | none => none
-  (records.foldl step (some st0)).map (·.cont)
+  (records.foldl encStepJ (some (jsonEncInit m))).map (·.cont)
 
 namespace Heap
 
